@@ -2,6 +2,8 @@
   C14 — Collections of zero-sized elements are refused consistently.
 -/
 import BorshModel.Theorems.C16
+import BorshModel.Lemmas.WireZero
+import BorshModel.Lemmas.SchemaBound
 import BorshModel.SchemaOf
 namespace Borsh
 
@@ -72,5 +74,62 @@ theorem C14_agrees_nonzero_examples :
        | .ok c => c.validate == .ok ()
        | _ => false)) = true := by
   decide +kernel
+
+/-- a `Vec`-like definition whose element declaration is zero-sized gets the zero-sized-sequence
+verdict at the root -/
+theorem validate_flags_zst_root (c : Container) (e : Name)
+    (hg : c.get c.decl = some (defaultSeq e)) (hz : ZeroSized c e) :
+    c.validate = .error (.zstSequence c.decl) := by
+  have hzs := (isZeroSize_iff c e).mpr hz
+  unfold Container.validate validateImpl
+  simp only [hg, defaultSeq, List.contains_nil, Bool.false_eq_true, if_false, isFixedLen]
+  have h1 : ((4 : Nat) == 0 && (0 : Nat) == 2 ^ 32 - 1) = false := by decide
+  have h2 : ¬ (2 ^ 32 - 1 < (0 : Nat)) := by decide
+  have h3 : checkLengthWidth c.decl 4 (2 ^ 32 - 1) = .ok () := by
+    simp [checkLengthWidth]
+  simp only [h1, Bool.false_eq_true, if_false, h2, h3, Res.bind, hzs]
+
+/-- **Agreement of the run-time refusal with schema validation, for every element type**: if the
+element type is empty both in memory (`memZero`) and on the wire (`wireZero`), then serializing a
+`Vec`/`VecDeque`/`LinkedList`/`IndexSet` of it is refused, deserializing is refused before any
+length is read, and the container generated for the collection gets the zero-sized-sequence
+verdict from `validate` (whenever the container binds the element type as intended — which
+`C08_builtin_bound` shows for the built-in compositions). -/
+theorem C14_agreement_seq (c : Container) (k : SeqK) (t : Ty) (hk : k.serChecksZst = true)
+    (hkb : k ≠ .bytesMut) (hs : shapeOk t = true) (hm : memZero t = true) (hw : wireZero t = true)
+    (hb : Bnd c (.seq k t)) (hd : c.decl = declOf (.seq k t)) (vs : List Val) (st : Bool) (bs : Bytes) :
+    (ser (.seq k t) (.list vs)).status = .err ⟨.invalidData, .zst⟩ ∧
+    deserialize st (.seq k t) bs = .err ⟨.invalidData, .zst⟩ ∧
+    c.validate = .error (.zstSequence c.decl) := by
+  refine ⟨?_, ?_, ?_⟩
+  · simp [ser, hk, hm, Tr.fail, eZst]
+  · unfold deserialize
+    cases k <;> first | exact absurd rfl hkb | simp [de, hm, eZst]
+  · simp only [Bnd] at hb
+    exact validate_flags_zst_root c (declOf t) (by rw [hd]; exact hb.1) (wireZero_zeroSized c t hs hw hb.2)
+
+theorem C14_agreement_set (c : Container) (k : SetK) (t : Ty) (hs : shapeOk t = true)
+    (hm : memZero t = true) (hw : wireZero t = true)
+    (hb : Bnd c (.set k t)) (hd : c.decl = declOf (.set k t)) (vs : List Val) (st : Bool) (bs : Bytes) :
+    (ser (.set k t) (.list vs)).status = .err ⟨.invalidData, .zst⟩ ∧
+    deserialize st (.set k t) bs = .err ⟨.invalidData, .zst⟩ ∧
+    c.validate = .error (.zstSequence c.decl) := by
+  refine ⟨?_, ?_, ?_⟩
+  · simp [ser, hm, Tr.fail, eZst]
+  · simp [deserialize, de, hm, eZst]
+  · simp only [Bnd] at hb
+    exact validate_flags_zst_root c (declOf t) (by rw [hd]; exact hb.1) (wireZero_zeroSized c t hs hw hb.2)
+
+/-- the same, end to end, for element types built from the built-in impls -/
+theorem C14_agreement_builtin (k : SeqK) (t : Ty) (hk : k.serChecksZst = true) (hkb : k ≠ .bytesMut)
+    (hg : guardFree t = true) (hs : shapeOk t = true) (hm : memZero t = true) (hw : wireZero t = true)
+    (c : Container) (hc : schemaOf (.seq k t) = .ok c) :
+    c.validate = .error (.zstSequence c.decl) := by
+  have hg' : guardFree (.seq k t) = true := by simpa [guardFree] using hg
+  unfold schemaOf at hc
+  obtain ⟨m, h1, h2⟩ := Res.bind_eq_ok hc
+  cases h2
+  obtain ⟨_, _, hb⟩ := adds_all (.seq k t) hg' [] m List.Pairwise.nil h1
+  exact (C14_agreement_seq ⟨declOf (.seq k t), m⟩ k t hk hkb hs hm hw (hb _) rfl [] false []).2.2
 
 end Borsh
